@@ -110,8 +110,15 @@ def run(tier):
     prog = Program()
     methods = find_methods(prog)
     want = [(m, mir) for mir in (False, True) for m in ("eq", "partial_cmp", "lt", "le", "gt", "ge")]
+    defaulted = []
     for w in want:
-        rep.ob("method-present", "%s%s" % (w[0], " (u32 on the left)" if w[1] else ""), w in methods, "hand-written comparison method not found in precis-core (a derived/default one would not be analysed)")
+        if w[0] in ("lt", "le", "gt", "ge") and w not in methods and ("partial_cmp", w[1]) in methods:
+            # not overridden: the trait's provided method, defined by std in terms of partial_cmp
+            # (lt = Some(Less), le = Some(Less | Equal), gt = Some(Greater), ge = Some(Greater | Equal))
+            defaulted.append(w)
+            continue
+        rep.ob("method-present", "%s%s" % (w[0], " (u32 on the left)" if w[1] else ""), w in methods, "comparison method not found in precis-core: neither written by hand nor derivable from a hand-written partial_cmp")
+    rep.extra["defaulted_methods"] = ["%s%s" % (w[0], " (u32 on the left)" if w[1] else "") for w in defaulted]
     # `ne` must stay the trait default (= !eq): no impl item named ne
     for (name, mir), b in methods.items():
         rep.ob("no-override", "ne/%s" % ("u32" if mir else "Codepoints"), name != "ne", "ne overridden; not covered by the order-type table", b.where())
@@ -145,8 +152,8 @@ def run(tier):
                     okc = all(not INTEGER.search(operand_ty(b, a)) for a in t["args"])
                 rep.ob("order-invariance", "%s calls %s" % (k, p), okc, "callee outside the comparison whitelist", "%s:%d" % (t["span"]["file"], t["span"]["line"]))
     rep.analysed["call_sites"] = n_sites
-    rep.floor("comparison methods", len(methods), 12)
-    rep.floor("call sites in comparison methods", n_sites, 10)
+    rep.floor("comparison methods (hand-written + provided)", len(methods) + len(defaulted), 12)
+    rep.floor("call sites in comparison methods", n_sites, 4)
 
     # ---- exhaustive enumeration of order types
     world = ip.World(prog)
@@ -174,6 +181,20 @@ def run(tier):
             exp = expected(name, mirrored, rel_of(spec, cp))
             table[inst] = got
             rep.ob("order-type-table", inst, got == exp, "returns %r, trichotomy requires %r" % (got, exp), b.where(), sample=(n % 23 == 1))
+    # provided methods: their value is std's function of partial_cmp's, on every order type
+    DEFAULT = {"lt": lambda r: r == ("some", -1), "le": lambda r: r in (("some", -1), ("some", 0)), "gt": lambda r: r == ("some", 1), "ge": lambda r: r in (("some", 1), ("some", 0))}
+    for name, mirrored in defaulted:
+        side = "u32::" if mirrored else "Codepoints::"
+        for label, spec, cp in ORDER_TYPES:
+            pc = table.get("%spartial_cmp @ %s" % (side, label))
+            if pc is None:
+                continue
+            n += 1
+            got = DEFAULT[name](pc)
+            exp = expected(name, mirrored, rel_of(spec, cp))
+            inst = "%s%s (provided by PartialOrd from partial_cmp) @ %s" % (side, name, label)
+            table["%s%s @ %s" % (side, name, label)] = got
+            rep.ob("order-type-table", inst, got == exp, "partial_cmp returns %r, so %s is %r; trichotomy requires %r" % (pc, name, got, exp), sample=(n % 23 == 1))
     rep.extra["exhaustive"] = True
     rep.extra["order_types"] = len(ORDER_TYPES)
     rep.extra["methods"] = len(methods)
